@@ -293,7 +293,8 @@ class GlobalModelRepository:
                     # print("UPDATED/CACHED {}".format(fn))
                     return fn
             i = 0
-            while self.all_models.has_model(f"anonymous{i}"):
+            # (has_model expects a file name and looks up its absolute path)
+            while f"anonymous{i}" in self.all_models.filename_to_model:
                 i += 1
             myfilename = f"anonymous{i}"
             self.all_models[myfilename] = model
